@@ -62,7 +62,7 @@ class FlowFields(ImageBatch):
         # DataTensor.__new__() creates the tensor subclass given arguments:
         # data, dtype, device, requires_grad, pin_memory
         if grid is None and isinstance(data, ImageBatch):
-            grid = data.grid()
+            grid = data.grids()
             data = data.tensor()
         super().__init__(
             data,
